@@ -5,6 +5,7 @@ import Rangers.Model.VrfCurve
 import Rangers.Model.Vrf
 import Rangers.Model.Qn
 import Rangers.Model.VrfMsg
+import Rangers.Model.VrfFlow
 import Rangers.Generated.C16Facts
 /- Line-protocol driver for property C16 (see design/C16.md for the op list). -/
 namespace Rangers.Drive.C16
@@ -71,6 +72,26 @@ def step (_ : Unit) (line : String) : Unit × String :=
             | .ok => "ok"
         else "bad-op"
       | _, _, _, _, _, _, _, _ => "bad-op"
+    | ["genkey", seed] => match ofHex? seed with
+      | some seed => if seed.length ≠ 32 then "bad-op" else
+        let r := VrfFlow.genKey seed
+        toHex r.1 ++ " " ++ toHex r.2
+      | none => "bad-op"
+    | ["thr", p025] => match p025.toNat? with
+      | some p => if p < Qn.two64 then toString (VrfFlow.threshold p) else "bad-op"
+      | none => "bad-op"
+    | ["gp", thr, sk, rnd, ns, bh, w, t] =>
+      match thr.toNat?, hexs [sk, rnd], ns.toInt?, bh.toNat?, w.toNat?, t.toNat? with
+      | some thr, some [sk, rnd], some ns, some bh, some w, some t =>
+        if bh < Qn.two64 ∧ w < Qn.two64 ∧ t < Qn.two64 then
+          match VrfFlow.genProve params thr sk rnd ns bh w t with
+          | .proveErr => "err-sk"
+          | .proofFail => "proof-fail"
+          | .panic => "PANIC"
+          | .unmodelled => "unmodelled"
+          | .ok pi qn => "ok " ++ toHex pi ++ " " ++ toString qn
+        else "bad-op"
+      | _, _, _, _, _, _ => "bad-op"
     | ["pad", h] => match ofHex? h with
       | some b => toHex (Vrf.tryZeroPadding b) ++ " " ++ toHex (Vrf.tryZeroPadding b)
       | none => "bad-op"
